@@ -14,7 +14,7 @@ func init() {
 			{name: "truncations", run: "^TestTruncations$", shards: 16, checks: 1, timeout: 25 * time.Minute},
 		}},
 		thorough: tier{jobs: []job{
-			{name: "determinism", run: "^TestProp$", shards: 16, checks: 2500, timeout: 120 * time.Minute},
+			{name: "determinism", run: "^TestProp$", shards: 16, checks: 5000, timeout: 120 * time.Minute},
 			{name: "bit-flips", run: "^TestBitFlips$", shards: 16, checks: 1, timeout: 120 * time.Minute, env: []string{"VERIF_C09_FLIPMAX=1200"}},
 			{name: "truncations", run: "^TestTruncations$", shards: 16, checks: 1, timeout: 120 * time.Minute},
 		}},
